@@ -1,6 +1,7 @@
 import Lean.Data.Json
 import LarkVerif.Repeat
 import LarkVerif.Props.C06
+import LarkVerif.Indenter
 /-! Line-protocol driver: one JSON request per stdin line (`{"op": ...}`), one JSON answer per stdout line.
     Runs the *executable definitions the theorems are about*.  Not part of the proof library. -/
 open Lean
@@ -37,6 +38,53 @@ def spanOf (j : Json) : Except String (Nat × Nat) := do
   match (← j.getArr?).toList with
   | [a, b] => pure (← a.getNat?, ← b.getNat?)
   | _ => throw "span"
+
+open IndProto in
+def indTokOf (j : Json) : Except String Tok := do
+  match j with
+  | Json.str "(" => pure .openP
+  | Json.str ")" => pure .closeP
+  | _ =>
+    match (← j.getArr?).toList with
+    | [Json.str "nl", n] => pure (.nl (← n.getNat?))
+    | [Json.str "o", n] => pure (.other (← n.getNat?))
+    | _ => throw "indenter token"
+
+open IndProto in
+def indEvJ : Ev → Json
+  | .indent => Json.str "I"
+  | .dedent => Json.str "D"
+  | .tok .openP => Json.str "("
+  | .tok .closeP => Json.str ")"
+  | .tok (.nl n) => Json.arr #[Json.str "nl", natJ n]
+  | .tok (.other n) => Json.arr #[Json.str "o", natJ n]
+
+-- runs `stepTok` token by token (so that the events emitted before an error are visible, as with the
+-- real generator) and appends the closing DEDENTs of `processFrom`
+open IndProto in
+def runIndenter (toks : List Tok) : Json := Id.run do
+  let mut st := St.init
+  let mut out : Array Json := #[]
+  let mut consumed := 0
+  for t in toks do
+    match stepTok st t with
+    | .error e =>
+      -- what the real generator has already yielded for the failing token when it raises
+      let partialEvs : List Ev := match t with
+        | .nl indent => Ev.tok t :: List.replicate (popWhile indent st.levels).2 Ev.dedent
+        | _ => [Ev.tok t]
+      return Json.mkObj [("out", Json.arr out), ("consumed", natJ consumed), ("partial", Json.arr (partialEvs.map indEvJ).toArray),
+        ("err", Json.str (match e with | .dedentError => "DedentError" | .assertFail => "AssertionError"))]
+    | .ok (evs, st') =>
+      out := out ++ (evs.map indEvJ).toArray
+      st := st'
+      consumed := consumed + 1
+  out := out ++ ((List.replicate (st.levels.length - 1) Ev.dedent).map indEvJ).toArray
+  -- cross-check against the function the theorem is about
+  let whole := match process St.init toks with
+    | .ok evs => Json.arr (evs.map indEvJ).toArray
+    | .error _ => Json.null
+  return Json.mkObj [("out", Json.arr out), ("consumed", natJ consumed), ("err", Json.null), ("process", whole)]
 
 def handle (j : Json) : Except String Json := do
   let op ← getStr j "op"
@@ -77,6 +125,9 @@ def handle (j : Json) : Except String Json := do
     let text := (← getStr j "text").toList
     let spans ← (← getArr j "spans").mapM spanOf
     pure (Json.arr (spans.map (fun se => stampJ (LCProto.dynStamp text se.1 se.2))).toArray)
+  | "indenter" =>
+    let toks ← (← getArr j "toks").mapM indTokOf
+    pure (runIndenter toks)
   | _ => throw s!"unknown op {op}"
 
 partial def loop (h : IO.FS.Stream) (out : IO.FS.Stream) : IO Unit := do
